@@ -136,7 +136,9 @@ class LinearFilter(LinearFilterProperties):
     yield self.dendict
 
   def __hash__(self):
-    return hash(tuple(self.numdict) + tuple(self.dendict))
+    # Powers sorted: the terms of a polynomial with a fractional power come in
+    # their creation order, which the equality doesn't depend on
+    return hash((tuple(sorted(self.numdict)), tuple(sorted(self.dendict))))
 
   def __call__(self, seq, memory=None, zero=0.):
     """
